@@ -7,6 +7,7 @@ own API (store_stream / add_blobs / save_*_file / update_blob_ownership), files 
 length, the BlobManager is started with setup() as after a daemon restart.  The oracle is a model of the rows
 kept here; it never calls get_stored_blobs and is agnostic to the order in which blobs are chosen.
 """
+import asyncio
 import hashlib
 import os
 import shutil
@@ -64,6 +65,24 @@ HUGE = 10 ** 6
 KINDS = ["mine", "mine_upd", "dl_file", "dl_nofile"]
 
 
+_LOOP = {"pid": None, "loop": None}
+
+
+def _get_loop():
+    """one private loop per *process*: the runner replays corpus/<id>/regress in the parent before it forks the
+    shard workers, and a loop (with its default executor threads) inherited through fork() never runs its
+    run_in_executor jobs, so a forked child must not reuse the parent's loop (nor close it)"""
+    if _LOOP["pid"] != os.getpid() or _LOOP["loop"] is None or _LOOP["loop"].is_closed():
+        if _LOOP["loop"] is not None:
+            # keep the inherited loop object alive and untouched: closing it (or letting it be collected) would
+            # unregister the parent's wake-up pipe from the epoll instance both processes share
+            _LOOP.setdefault("inherited", []).append(_LOOP["loop"])
+        loop = asyncio.new_event_loop()
+        asyncio.set_event_loop(loop)
+        _LOOP["pid"], _LOOP["loop"] = os.getpid(), loop
+    return _LOOP["loop"]
+
+
 def _h(tag):
     return hashlib.sha384(("c19-" + tag).encode()).hexdigest()
 
@@ -97,7 +116,7 @@ class World:
         self.db_path = os.path.join(tmp, "lbrynet.sqlite")
         self.conf = types.SimpleNamespace(save_blobs=True, blob_lru_cache_size=0, track_bandwidth=False,
                                           blob_storage_limit=0, network_storage_limit=0)
-        self.loop = aio.get_loop()
+        self.loop = _get_loop()
         self.model = {}
         self.nstreams = 0
         self.nnet = 0
@@ -361,7 +380,7 @@ def run_case(case):
     out = Out()
     tmp = tempfile.mkdtemp(prefix="verif-c19-")
     try:
-        aio.run(_run(case, out, tmp))
+        aio.run(_run(case, out, tmp), loop=_get_loop())
     finally:
         shutil.rmtree(tmp, ignore_errors=True)
     return out
@@ -410,7 +429,7 @@ def case_strategy(tier):
 
 
 PARTS = [
-    Part("cleanup", case_strategy, run_case, 300, 3000, quick_shards=4, thorough_shards=16,
+    Part("cleanup", case_strategy, run_case, 500, 4000, quick_shards=4, thorough_shards=16,
          essential=("content:over", "content:within", "content:unlimited", "content:at-limit", "network:over",
                     "network:within", "network:at-limit", "deleted:content", "deleted:network", "has:mine",
                     "has:mine_upd", "has:dl_file", "has:dl_nofile", "has:network", "has:pending",
